@@ -50,6 +50,10 @@ def source(case):
     kind = case[1]
     if kind == "api-base":
         return design.build_netlist(c03.to_api(fdesigns.BASES[case[2]]())), "api:" + case[2]
+    if kind == "api-base-rev":
+        # declared parent first: the EDIF writer's dependency ordering has work to do
+        ad = dict(c03.variants(fdesigns.BASES[case[2]]()))["reversed-declaration-order"]
+        return design.build_netlist(c03.to_api(ad)), "api-parent-first:" + case[2]
     if kind == "api-hier":
         d = case[2]
         return design.build_netlist(design.materialize((d[0], tuple(d[1]), d[2]))), "api:hier"
@@ -173,6 +177,7 @@ def cases(tier):
     srcs = []
     for b in fdesigns.BASES:
         srcs.append(("api-base", b))
+        srcs.append(("api-base-rev", b))
         srcs.append(("edif-text", b))
     for desc in design.family_hier(tier, variants=("plain", "two-libraries")):
         if desc[0] in ("K8-bus",) or (desc[0] in ("K1-chain2", "K2-shared") and (tier == "thorough" or sum(desc[1]) % 5 == 0)):
@@ -191,6 +196,8 @@ def cases(tier):
         for t in TARGETS:
             for opts in option_sets(t, tier):
                 out.append(((t, opts),) + src + ("asc",))
+                if src[0] in ("api-base", "api-base-rev") and t == ".edf":
+                    out.append(((t, opts),) + src + ("desc",))   # the dependency sort iterates sets
         if src[0] == "verilog-text":
             out.append(((".v", {"definition_list": ["top"], "write_blackbox": True}),) + src + ("asc",))
         if src[0] in ("api-base", "verilog-text", "eblif-text"):
